@@ -79,15 +79,15 @@ def gen_universe(rng, shape):
                     if tk not in spell or rng.random() < 0.08:
                         spell[tk] = rng.choice(SPELL[tk])
                     t = spell[tk]
-                    ex = "[%s]" % rng.choice(["x", "y", "x,y", "X"]) if rng.random() < extras_p else ""
-                    mk = ' ; extra == "%s"' % rng.choice(["x", "y"]) if rng.random() < extras_p else ""
+                    ex = "[%s]" % rng.choice(["x", "y", "x,y", "X", "p.q"]) if rng.random() < extras_p else ""
+                    mk = ' ; extra == "%s"' % rng.choice(["x", "y", "x", "y", "p.q"]) if rng.random() < extras_p else ""
                     if not mk and rng.random() < 0.06:
                         mk = rng.choice([' ; python_version >= "3"', ' ; python_version < "3"'])
                     reqs.append(t + ex + gen_spec(rng, conflict_p) + mk)
             U[n][v] = reqs
     def inp():
         n = rng.choice(names)
-        ex = "[%s]" % rng.choice(["x", "y", "x,y"]) if rng.random() < (extras_p + 0.1) else ""
+        ex = "[%s]" % rng.choice(["x", "y", "x,y", "p.q"]) if rng.random() < (extras_p + 0.1) else ""
         return rng.choice(SPELL[n]) + ex + gen_spec(rng, 0.25 if shape != "dag-free" else 0.1)
     inputs = [[inp() for _ in range(rng.randint(1, 3))] for _ in range(rng.choice([1, 1, 1, 2]))]
     constraints = []
